@@ -6,7 +6,7 @@ import os
 from harness import common, gen_text, textimpl, gpgutil
 from harness.common import cps, uncps
 
-BRIDGE = ('Gemato.Bridge.Text', 'Gemato.Bridge.SrcText', 'Gemato.Bridge.SrcPgp')
+BRIDGE = ('Gemato.Bridge.Text', 'Gemato.Bridge.SrcText', 'Gemato.Bridge.SrcPgp', 'Gemato.Bridge.SrcCodec')
 PROPS = ['Gemato.Props.C04', 'Gemato.Props.C04b']
 
 
